@@ -45,5 +45,22 @@ Fixpoint pfx_calls_g (P : trie) (it : pfx_it) (n : nat) : res (list (option (N *
   end.
 Definition PfxCallsRef : Prop := forall P q n r, trie_shape P -> bytes_ok q = true -> lenN q < 2^64 ->
   pfx_calls P (mk_prefix q) n = Ok r -> pfx_calls_g P (mk_prefix q) n = Ok r.
+(* trie::next_predictive on a predictive_iterator: one advance of a bound iterator.  The cursors' depths must leave room
+   for one more level per iteration of the search loop.  This first statement is REFUTED
+   (AccessPredictiveFacts.pred_next_ref_naive_refuted): the C++ narrows every alphabet element to a char, so the
+   alphabet array must hold bytes -- AccessPredictiveFacts.PredNextRefAlpha adds that premise, and
+   assemble_alpha_bytes shows every assembled dictionary satisfies it. *)
+Definition cursors_below (b : N) (it : pred_it) : Prop := Forall (fun c => c_kpos c < b) (d_stack it).
+Definition PredNextRefNaive : Prop := forall P it r, trie_shape P -> alen (tv_chars (t_tail P)) < 2^62 ->
+  bytes_ok (d_key it) = true -> lenN (d_key it) < 2^62 -> lenN (d_dec it) < 2^62 -> bc_num_units (t_bc P) < 2^62 ->
+  d_obj it = true -> (d_beg it = true -> d_stack it = []) -> cursors_below (2^62) it ->
+  next_predictive P it = Ok r -> trg_next_predictive P it = Ok r.
+Fixpoint pred_calls_g (P : trie) (it : pred_it) (n : nat) : res (list (option (N * key))) :=
+  match n with
+  | O => Ok []
+  | S m => do '(it', b) <- trg_next_predictive P it;
+           do r <- pred_calls_g P it' m;
+           Ok ((if b then Some (d_id it', d_dec it') else None) :: r)
+  end.
 (* what assemble produces from well-formed logical content has that shape *)
 Definition AssembleShape : Prop := forall v L P K, wf_for v L P K -> trie_shape P.
